@@ -27,7 +27,8 @@ EXPLANATION = (
     'FieldSignature.deserialize decides whether to load an attribute from the '
     'presence of its key, never from its value; R-C06.7 the mapping type the '
     'storage loader produces (json.loads object_pairs_hook) is accepted by '
-    'the type guard in front of every marker test of the reader dispatch.')
+    'the type guard in front of every marker test of the reader dispatch; '
+    'R-C06.4 (as reformulated) every attribute written through serialize_to_signature is compared by __eq__ through a recursive tuple->list normaliser; R-C06.8 every name in FieldSignature._ATTRIBUTE_DEFAULTS is a constructor parameter of the django field class (installed Django source); R-C06.9 from_*() and deserialize() agree on the empty normal form (None) of every constructor argument; R-C06.10 no field option name is shadowed by a class member of FieldSignature (deserialize skips hasattr(cls, name)).')
 NOT_DECIDED = (
     'Round-trip equality for all values (nested Q/F/expressions, unicode, '
     'enums, legacy pickles) - needs execution.')
